@@ -26,6 +26,7 @@ An agent's uid is its index in `pop`.  Times are exact rationals (`none` = nan).
 -/
 import StarsimModel.Generated.Disease_sir
 import StarsimModel.Generated.PhaseOrder
+import StarsimModel.Generated.ResultsTable
 
 namespace StarsimModel.SimCore
 open Gen.Sir
@@ -161,13 +162,28 @@ def countActive (p : Agent → Bool) (pop : List Agent) : Nat := (pop.filter fun
 
 def sumNat (l : List Nat) : Nat := l.foldl (· + ·) 0
 
+/-- Does the cumulative result `result` written by class `cls` include the current step?  Looked up in `Gen.cumRows`, the
+    table of cumulative-result statements regenerated from the source (`sum[:ti]` excludes it, `sum[:ti+1]` includes it);
+    `none` when the source has no such statement. -/
+def cumInclusive (cls result : String) : Option Bool :=
+  (Gen.cumRows.find? fun r => r.cls = cls ∧ r.result = result).map (·.inclusive)
+
+/-- running total over the earlier rows, plus the current value when the source's slice includes the current step
+    (a missing statement leaves the result at 0, as an unwritten result array is) -/
+def cumValue (incl : Option Bool) (earlier : List Nat) (now : Nat) : Nat :=
+  match incl with
+  | some true => sumNat earlier + now
+  | some false => sumNat earlier
+  | none => 0
+
 /-- `People.update_results`: starts the row of this step -/
 def peopleResultsPhase (s : Sim) : Sim :=
+  let newDeaths := countActive (fun a => isNow a.pDead s.ti) s.pop
   let row : Row :=
     { ti := s.ti,
       nAlive := countActive (·.alive) s.pop,
-      newDeaths := countActive (fun a => isNow a.pDead s.ti) s.pop,
-      cumDeaths := sumNat (s.rows.map (·.newDeaths)),      -- `np.sum(new_deaths[:ti])`: the earlier rows only
+      newDeaths := newDeaths,
+      cumDeaths := cumValue (cumInclusive "People" "cum_deaths") (s.rows.map (·.newDeaths)) newDeaths,   -- today `np.sum(new_deaths[:ti])`
       nS := 0, nI := 0, nR := 0, newInf := 0, cumInf := 0, prevNum := 0, prevDen := 0 }
   { s with rows := s.rows ++ [row] }
 
@@ -181,7 +197,7 @@ def diseaseResultsPhase (s : Sim) : Sim :=
       let row' : Row :=
         { row with nS := countActive (·.fl.susceptible) s.pop, nI := nI, nR := countActive (·.fl.recovered) s.pop,
                    newInf := newInf,
-                   cumInf := sumNat (s.rows.dropLast.map (·.newInf)) + newInf,      -- `np.sum(new_infections[:ti+1])`
+                   cumInf := cumValue (cumInclusive "Infection" "cum_infections") (s.rows.dropLast.map (·.newInf)) newInf,   -- today `np.sum(new_infections[:ti+1])`
                    prevNum := nI, prevDen := countActive (·.alive) s.pop }
       { s with rows := s.rows.dropLast ++ [row'] }
 
